@@ -10,9 +10,16 @@
 // library's primitives (crypto/rsa, crypto/ecdsa, crypto/ed25519) against the
 // ORIGINAL key, under the algorithm the DER declares (decoded with an OID
 // table written from RFC 3279/4055/5758/8410).
+//
+// Every case is built twice, separately: one set of objects is handed to the
+// creation call, the other one only supplies the expectations. Reuse histories
+// (hist.go) put the SAME input objects through several creation calls with
+// in-place edits in between; an input immutability probe (snap.go) brackets
+// every creation call.
 package main
 
 import (
+	"bytes"
 	"encoding/json"
 	"fmt"
 	"sort"
@@ -29,15 +36,66 @@ type field struct {
 	alts []string
 }
 
+// caseObj is one assignment turned into objects: the inputs of the creation call
+// and, independently, the values the created object must report.
+type caseObj interface {
+	// create performs the creation call on the case's input objects.
+	create() (der []byte, err error)
+	// adopt transplants G-field f from donor (a freshly built case of the NEW
+	// assignment) into this case's input objects, IN PLACE: the objects stay the
+	// same, as in a caller's loop that reuses one template.
+	adopt(donor caseObj, f int)
+	// inputs are the objects handed to the creation call (immutability probe).
+	inputs() map[string]any
+}
+
 // space is one object family (csr / crl / rl).
 type space struct {
 	kind   string
+	api    string // the creation function
 	fields []field
 	// canonical reports whether the assignment is the canonical description of
 	// its input (false: a non-default value sits in a slot that is not used by
 	// this assignment, i.e. the input duplicates one with fewer deviations).
 	canonical func(a []int) bool
-	run       func(r *runner, a []int)
+	// slotPer > 0: fields 1..3*slotPer are three entry slots of slotPer fields each, field 0 is the entry count
+	slotPer int
+	// build turns an assignment into fresh objects (nothing shared with any other case).
+	build func(r *runner, a []int) caseObj
+	// check judges what the creation call returned by the expectations of exp, a
+	// case that was built separately and never handed to zcrypto.
+	check func(r *runner, a []int, exp caseObj, der []byte, err error)
+	// editAlts restricts the alternatives a reuse history may switch field f to
+	// (nil: all). cur is the field's current alternative.
+	editAlts func(f, cur int, full bool) []int
+}
+
+// tryCreate runs the creation call, recovering a panic.
+func tryCreate(cs caseObj) (der []byte, err error, panicked bool, msg, site string) {
+	panicked, msg, site = ev.Try(func() { der, err = cs.create() })
+	return
+}
+
+// run is the single-shot case: fresh objects, one creation call, judged.
+func (sp *space) run(r *runner, a []int) {
+	live, exp := sp.build(r, a), sp.build(r, a)
+	before := takeDigest(live.inputs())
+	der, err, panicked, msg, site := tryCreate(live)
+	r.c.Transitions.Add(1)
+	if !bytes.Equal(before, takeDigest(live.inputs())) {
+		// the same case again with the path-naming snapshots
+		again := sp.build(r, a)
+		full := takeSnap(again.inputs())
+		tryCreate(again)
+		for _, p := range full.changedPaths(takeSnap(again.inputs())) {
+			r.mutated(p)
+		}
+	}
+	if panicked {
+		r.viol("panic@"+site+" in "+sp.api+": "+ev.MsgClass(msg), msg)
+		return
+	}
+	sp.check(r, a, exp, der, err)
 }
 
 // describe renders the non-default part of an assignment.
@@ -103,7 +161,9 @@ func ndev(a []int) int {
 // witness is what a violation carries and what --replay re-executes.
 type witness struct {
 	Kind   string            `json:"kind"`
-	Assign []int             `json:"assign"`
+	Assign []int             `json:"assign"` // reuse history: the assignment the reused objects hold at the last call
+	Base   []int             `json:"history_base,omitempty"`
+	Edits  [][2]int          `json:"history_edits,omitempty"` // (field, new alternative), applied in place between the calls; field -1 = no edit
 	Case   string            `json:"case"`
 	Fields map[string]string `json:"fields,omitempty"`
 	Detail string            `json:"detail"`
@@ -118,6 +178,15 @@ type runner struct {
 	a    []int
 	der  []byte
 	keys map[string]*keyMat
+
+	hist    *history // non-nil: the last call of a reuse history is being judged
+	collect *[]pviol // non-nil: violations are collected instead of reported
+	mute    bool     // outcome classes of the single-shot checks are not counted
+}
+
+type pviol struct {
+	sig, detail string
+	der         []byte
 }
 
 func (r *runner) key(kind string) *keyMat {
@@ -140,13 +209,41 @@ func (r *runner) sampleOK() bool {
 	return v.(*atomic.Int32).Add(1) <= 2
 }
 
-func (r *runner) out(class string) { r.h[r.sp.kind+": "+class]++ }
+func (r *runner) out(class string) {
+	if !r.mute {
+		r.h[r.sp.kind+": "+class]++
+	}
+}
+
+// mutated records that the creation call changed its input at path (immutability probe).
+func (r *runner) mutated(path string) {
+	r.h[r.sp.kind+": probe: "+r.sp.api+" changed its input "+path+" (undocumented; what that does to a later call is judged by the reuse histories)"]++
+	mutatedMu.Lock()
+	mutatedPaths[r.sp.api+": "+path] = true
+	mutatedMu.Unlock()
+}
+
+var (
+	mutatedMu    sync.Mutex
+	mutatedPaths = map[string]bool{}
+)
 
 // viol records a violation; sig is the class, detail the concrete mismatch.
 func (r *runner) viol(sig, detail string) {
+	if r.collect != nil {
+		*r.collect = append(*r.collect, pviol{sig, detail, r.der})
+		return
+	}
+	r.report(sig, detail, r.der)
+}
+
+func (r *runner) report(sig, detail string, der []byte) {
 	w := witness{Kind: r.sp.kind, Assign: r.a, Case: r.sp.describe(r.a), Fields: r.sp.full(r.a), Detail: detail}
-	if len(r.der) > 0 && len(r.der) <= 4096 {
-		w.DER = fmt.Sprintf("%x", r.der)
+	if r.hist != nil {
+		w.Base, w.Edits, w.Case = r.hist.base, r.hist.edits, r.hist.describe(r.sp)
+	}
+	if len(der) > 0 && len(der) <= 4096 {
+		w.DER = fmt.Sprintf("%x", der)
 	}
 	r.c.Violation(r.sp.kind+": "+sig, w)
 	r.h[r.sp.kind+": VIOLATION"]++
@@ -169,7 +266,14 @@ func main() {
 						c.Broken("witness has %d fields, space %s has %d", len(w.Assign), sp.kind, len(sp.fields))
 					}
 					r := &runner{c: c, h: ev.Hist{}, sp: sp, a: w.Assign, keys: map[string]*keyMat{}}
-					sp.run(r, w.Assign)
+					if w.Base != nil {
+						if len(w.Base) != len(sp.fields) {
+							c.Broken("witness history does not fit space %s", sp.kind)
+						}
+						sp.runHistory(r, history{w.Base, w.Edits})
+					} else {
+						sp.run(r, w.Assign)
+					}
 					c.Merge(r.h)
 					c.States.Add(1)
 				}
@@ -181,6 +285,7 @@ func main() {
 		type job struct {
 			sp *space
 			a  []int
+			h  *history
 		}
 		var jobs []job
 		for _, sp := range spaces {
@@ -195,12 +300,36 @@ func main() {
 				"assignments": total, "canonical_assignments": len(as), "field_sizes": strings.Join(fd, " ")})
 			rule = append(rule, fmt.Sprintf("%s: %d fields/%d alternatives, %d canonical assignments", sp.kind, len(sp.fields), nalt, len(as)))
 			for _, a := range as {
-				jobs = append(jobs, job{sp, a})
+				jobs = append(jobs, job{sp: sp, a: a})
 			}
 		}
+		// reuse histories (hist.go): the same input objects through several creation calls
+		histInfo := map[string]any{}
+		for _, sp := range spaces {
+			bases, _ := sp.enumerate(1)
+			n2, n3 := 0, 0
+			for _, h := range sp.histories(bases, 2, !c.Quick()) {
+				h := h
+				jobs = append(jobs, job{sp: sp, h: &h})
+				n2++
+			}
+			if !c.Quick() {
+				for _, h := range sp.histories(bases, 3, false) {
+					h := h
+					jobs = append(jobs, job{sp: sp, h: &h})
+					n3++
+				}
+			}
+			histInfo[sp.kind] = map[string]int{"bases": len(bases), "length_2": n2, "length_3": n3}
+			rule = append(rule, fmt.Sprintf("%s reuse histories: %d bases, %d of length 2, %d of length 3", sp.kind, len(bases), n2, n3))
+		}
+		c.Set("reuse_histories", histInfo)
 		c.Rule("G-field: every assignment of the csr/crl/rl field records with <= " + fmt.Sprint(d) +
 			" non-default fields (" + strings.Join(rule, "; ") + "); a case is non-trivial/distinct when the object was created and parsed back; " +
-			"assignments that only deviate an unused entry slot are dropped as duplicates")
+			"assignments that only deviate an unused entry slot are dropped as duplicates. " +
+			"Reuse histories: every base assignment with <= 1 non-default field x every sequence of in-place edits 'field := other alternative' (plus 'no edit'; quick: the joint signer field only moves along one of its two axes, key kind or algorithm; length 3 in the thorough tier only) on the SAME template / entry list / hand-built issuer objects between consecutive creation calls: " +
+			"the object created by the last call is judged by the single-shot checks against the expectation of a freshly built case of the assignment the objects hold then, and its TBS bytes must equal those created from such fresh objects; " +
+			"every creation call is bracketed by a deep snapshot of its input objects (changed paths are outcome classes 'probe: ...')")
 		c.Assume(
 			"expectations are written from the property statement and the doc comments of CreateCertificateRequest / CreateCRL / CreateRevocationList / RevokedCertificate, not from the implementation",
 			"independent oracles: crypto/x509 ParseCertificateRequest/ParseRevocationList for the fields, crypto/rsa|ecdsa|ed25519 primitives for the signature (trusted)",
@@ -208,7 +337,8 @@ func main() {
 			"the Time fields of created CRLs are additionally compared with the encoding RFC 5280 5.1.2.4-5.1.2.6 prescribes (UTCTime..2049 / GeneralizedTime 2050.., Zulu, whole seconds), read with encoding/asn1",
 			"key kind and SignatureAlgorithm form one joint field 'signer' whose alternatives are ALL 6x18 (key kind, algorithm) pairs: which pairs are accepted is observed, not assumed",
 			"entry lists are compared as multisets of (serial, time, reason, extensions) tuples; order preservation is reported as an outcome class",
-			"CSR extensions are compared with their Critical flag; only when the (deprecated) template.Attributes already holds an extensionRequest attribute, into whose flag-less AttributeTypeAndValue list ExtraExtensions are merged, kept/dropped are both accepted and counted",
+			"reuse histories: 'that were supplied' is read as what the input objects hold AT THE TIME OF THE CALL; a creation call that changes its inputs is not a violation by itself (outcome class), only its effect on a later call is",
+		"CSR extensions are compared with their Critical flag; only when the (deprecated) template.Attributes already holds an extensionRequest attribute, into whose flag-less AttributeTypeAndValue list ExtraExtensions are merged, kept/dropped are both accepted and counted",
 		)
 
 		// VERIF_SEED only rotates the execution order
@@ -229,10 +359,23 @@ func main() {
 			}
 			j := jobs[i]
 			r.sp, r.a, r.der = j.sp, j.a, nil
-			panicked, msg, site := ev.Try(func() { j.sp.run(r, j.a) })
+			r.hist, r.collect, r.mute = nil, nil, false
+			panicked, msg, site := ev.Try(func() {
+				if j.h != nil {
+					j.sp.runHistory(r, *j.h)
+				} else {
+					j.sp.run(r, j.a)
+				}
+			})
 			if panicked {
 				// panics inside zcrypto calls are caught closer to the call; this is the harness itself
-				c.Broken("harness panic in %s at %s: %s", j.sp.describe(j.a), site, msg)
+				what := ""
+				if j.h != nil {
+					what = j.h.describe(j.sp)
+				} else {
+					what = j.sp.describe(j.a)
+				}
+				c.Broken("harness panic in %s at %s: %s", what, site, msg)
 			}
 			c.States.Add(1)
 		})
@@ -242,7 +385,13 @@ func main() {
 			}
 		}
 		if !done {
-			c.Incomplete("budget hit before all enumerated assignments were executed")
+			c.Incomplete("budget hit before all enumerated assignments and reuse histories were executed")
 		}
+		var mp []string
+		for p := range mutatedPaths {
+			mp = append(mp, p)
+		}
+		sort.Strings(mp)
+		c.Set("inputs_changed_by_creation_calls", mp)
 	})
 }
